@@ -137,6 +137,10 @@ struct C11World: World {
       if (s.kind == OP_ONLY) { if (s.a != -2) { only_kind = s.a; only_n = s.b; only_val = s.c; } continue; }
       apply_history_step(f, fcfg, *sk, s);
     }
+    bool has_history = false; for (const Step& s : p.steps) if (s.kind != OP_ONLY) has_history = true;
+    // the whole fault space of one image; run for the image the history built and then for the image of the fresh (empty) object of the same family,
+    // configuration and variant - empty images are the shortest ones and take reader paths of their own (flag-dependent preamble sizes)
+    auto enumerate = [&](std::unique_ptr<Sk>& sk) {
     if (!sk->variant_ok(variant)) { ctx.probe("variant_not_applicable"); return; }
     if (!sk->state_consistent()) { ctx.probe("image_of_object_in_recorded_inconsistent_state_skipped"); return; }
     Bytes img = sk->ser(variant, 0);
@@ -242,6 +246,9 @@ struct C11World: World {
     ctx.st.faults["bitflip"] += c_rejected + c_accepted;
     ctx.probe("corrupt_rejected", c_rejected); ctx.probe("corrupt_accepted_usable", c_accepted);
     ctx.probe((std::string("family_") + sk->fam()).c_str());
+    };
+    enumerate(sk);
+    if (has_history) { std::unique_ptr<Sk> fresh(f->make(fcfg)); ctx.probe("fresh_object_image_enumerated"); enumerate(fresh); }
   }
 };
 
